@@ -128,8 +128,12 @@ def regfile(groups) -> Dict[int, Any]:
     out = {}
     for b, name in enumerate(BANKS):
         g = groups[name]
-        for idx, val in g._register.items():
-            out[b * 16 + idx] = val
+        # through the public item access (16 registers per bank), whatever the group keeps them in
+        for idx in range(16):
+            try:
+                out[b * 16 + idx] = g[idx]
+            except Exception:
+                out[b * 16 + idx] = None
     return out
 
 
